@@ -10,15 +10,19 @@ pub struct Poisson {
 
 impl Poisson {
     pub fn arrival_probability(&self, delta: Duration, njobs: usize) -> f64 {
-        // quick and dirty naive factorial: k!
-        let mut denominator = 1.0;
-        for x in 1..(njobs + 1) {
-            denominator *= x as f64;
+        let mean = Time::from(delta) as f64 * self.rate; // rate * delta
+        if mean <= 0.0 {
+            // degenerate case: no arrivals at all
+            return if njobs == 0 { 1.0 } else { 0.0 };
         }
-        let mean = Time::from(delta) as f64 * self.rate;
-        let mut numerator = (-mean).exp(); // e^(- rate * delta)
-        numerator *= mean.powi(njobs as i32); // (rate * delta)**k
-        numerator / denominator
+        // Evaluate e^(-mean) * mean^k / k! in log space: the naive evaluation
+        // overflows (mean^k and k! become infinite, e^(-mean) underflows) once
+        // the mean reaches a few hundred, yielding garbage probabilities.
+        let mut log_prob = -mean + njobs as f64 * mean.ln();
+        for x in 1..(njobs + 1) {
+            log_prob -= (x as f64).ln(); // k!
+        }
+        log_prob.exp()
     }
 
     pub fn approximate(&self, epsilon: f64) -> ApproximatedPoisson {
